@@ -441,8 +441,12 @@ func (fc *funcCFG) establishedAt(target ast.Node, establishes func(cond ast.Expr
 			}
 		}
 		if len(b.Succs) == 2 && len(b.Nodes) > 0 {
-			if cond, ok := b.Nodes[len(b.Nodes)-1].(ast.Expr); ok && establishes(cond, edge == 0) {
-				v = true
+			if cond, ok := b.Nodes[len(b.Nodes)-1].(ast.Expr); ok {
+				for _, a := range impliedAtoms(cond, edge == 0) {
+					if establishes(a.e, a.holds) {
+						v = true
+					}
+				}
 			}
 		}
 		return v
@@ -709,4 +713,28 @@ func rebase(f *Fn, e ast.Expr, cs callSite) string {
 	}
 	// a pointer receiver/argument written &x or a dereference keep the same fields
 	return strings.TrimPrefix(argPath, "&") + strings.TrimPrefix(full, rootPath)
+}
+
+type condAtom struct {
+	e     ast.Expr
+	holds bool
+}
+
+// impliedAtoms: the atomic conditions whose truth value is known when `cond` evaluated to `val` (go/cfg keeps a
+// compound condition in one node): !x flips; a && b true gives both true; a || b false gives both false.
+func impliedAtoms(cond ast.Expr, val bool) []condAtom {
+	switch x := ast.Unparen(cond).(type) {
+	case *ast.UnaryExpr:
+		if x.Op == token.NOT {
+			return impliedAtoms(x.X, !val)
+		}
+	case *ast.BinaryExpr:
+		switch {
+		case x.Op == token.LAND && val, x.Op == token.LOR && !val:
+			return append(impliedAtoms(x.X, val), impliedAtoms(x.Y, val)...)
+		case x.Op == token.LAND, x.Op == token.LOR:
+			return nil
+		}
+	}
+	return []condAtom{{ast.Unparen(cond), val}}
 }
